@@ -107,8 +107,18 @@ QLawsEvOK(e) ==
     \* selecting strategies commute with a strictly increasing relabelling (ranks are unchanged)
     /\ \A s \in {"lower", "higher", "nearest"} : e.rel[s] = e.res[s]
 
+(* C19 on the lanes of an n-D array: q = 0 / q = 1 give each lane's minimum / maximum under every strategy, lane by lane *)
+SeqMin(s) == CHOOSE v \in RangeOf(s) : \A w \in RangeOf(s) : v <= w
+SeqMax(s) == CHOOSE v \in RangeOf(s) : \A w \in RangeOf(s) : v >= w
+NdLawsEvOK(e) ==
+    /\ Len(e.failed) = 0 /\ e.shape_ok
+    /\ \A s \in STRATS :
+          /\ Len(e.res0[s]) = Len(e.lanes) /\ Len(e.res1[s]) = Len(e.lanes)
+          /\ \A t \in DOMAIN e.lanes : e.res0[s][t] = SeqMin(e.lanes[t]) /\ e.res1[s][t] = SeqMax(e.lanes[t])
+
 EventOK(e) ==
     CASE e.ev = "quantile" -> QuantileEvOK(e)
+      [] e.ev = "ndlaws"   -> NdLawsEvOK(e)
       [] e.ev = "qlaws"    -> QLawsEvOK(e)
       [] OTHER -> FALSE
 
